@@ -114,6 +114,12 @@ pub fn cases() -> Vec<Case> {
     for (prog, lenient) in [("min()", false), ("max()", false), ("sum()", true), ("mul()", true), ("AND []", true), ("OR []", true), ("min(x)", false), ("sum(x)", false), ("AND [x]", false), ("AND x", false), ("OR x", false)] {
         out.push(Case { program: prog.into(), bindings: vec![], key: format!("aggregate:{}", prog.replace(' ', "")), lenient_err: lenient });
     }
+    // a fault inside a list literal must fail the whole evaluation, not drop the element
+    for (a, b) in [(d("1"), d("0")), (Value::Number(Decimal::MAX), d("2")), (d("1"), Value::Bool(true))] {
+        for prog in ["[a / b]", "[1, a / b, 2]", "a in [a / b, a]", "AND [a / b < 1, true]", "[a * b] == []", "{1 : a / b}", "min(1, a / b)", "x = [a * b, a / b] ; x", "[a << 70]", "[a | 0.5]"] {
+            out.push(Case { program: prog.into(), bindings: bind(&["a", "b"], &[&a, &b]), key: format!("nested-fault:{}:{}:{}", prog.replace(' ', ""), class(&a), class(&b)), lenient_err: false });
+        }
+    }
     // aggregates: a zero or vanishing running product / sum must not hide an ill-typed later argument
     let agg = [d("0"), d("0.0000000000000000000000000001"), d("2"), Value::Number(Decimal::MAX), Value::Bool(true), Value::String("x".into()), Value::List(vec![]), Value::None];
     for f in ["sum", "mul", "min", "max"] {
